@@ -408,6 +408,7 @@ def _g_fill(g, ins):
         "chunks": [list(c) for c in rand_chunks(g.rng, shape)],
         "dtype": g.rng.choice(["f8", "i8", "bool", "f4"]),
         "fill": g.rng.choice([2, -3, 7]),
+        "named": g.rng.random() < 0.25,
     }
 
 
@@ -419,9 +420,13 @@ def _fill_np(p):
 
 def _fill_da(p):
     ch = tuple(tuple(c) for c in p["chunks"])
+    kw = {}
+    if p.get("named"):
+        # a user-chosen name: one name per distinct array (same parameters -> same array)
+        kw["name"] = "userfill-" + "-".join(str(x) for x in (p["fn"], p["shape"], p["chunks"], p["dtype"], p["fill"] if p["fn"] == "full" else "")).replace(" ", "")
     if p["fn"] == "full":
-        return da().full(tuple(p["shape"]), p["fill"], dtype=p["dtype"], chunks=ch)
-    return getattr(da(), p["fn"])(tuple(p["shape"]), dtype=p["dtype"], chunks=ch)
+        return da().full(tuple(p["shape"]), p["fill"], dtype=p["dtype"], chunks=ch, **kw)
+    return getattr(da(), p["fn"])(tuple(p["shape"]), dtype=p["dtype"], chunks=ch, **kw)
 
 
 defop("fill", 0, _g_fill, _fill_np, _fill_da, "leaf creation", w=0)
@@ -1732,6 +1737,49 @@ def _map_blocks_local_da(p, a):
 # map_blocks as if its function were position-wise - a documented design assumption - so a block-local kernel in the
 # middle of a program is outside what the optimizer promises; BELOW such a consumer the grid must be preserved)
 defop("map_blocks_local", 1, _g_map_blocks_local, _map_blocks_local_np, _map_blocks_local_da, "blockwise map_blocks", w=0)
+
+
+def _g_map_blocks_kwarg(g, ins):
+    a, b = ins
+    need(a.kind in "fi" and b.kind in "fi" and b.np.size > 0 and a.mag + b.mag * max(1, b.np.size) < 1e12)
+    need(not isinstance(a.np, np.ma.MaskedArray) and not isinstance(b.np, np.ma.MaskedArray))
+    return {"how": g.rng.choice(["sum", "delayed"])}
+
+
+def _map_blocks_kwarg_np(p, a, b):
+    return a + b.sum()
+
+
+def _map_blocks_kwarg_da(p, a, b):
+    # a dask collection handed to the kernel by keyword (its graph must be merged into the layer)
+    off = b.sum()
+    if p["how"] == "delayed":
+        import dask
+
+        off = dask.delayed(lambda v: v)(off)
+    dt = (np.zeros(1, a.dtype) + np.zeros(1, b.dtype).sum()).dtype  # what NumPy gives for a + b.sum()
+    return da().map_blocks(K.k_add_offset, a, offset=off, dtype=dt)
+
+
+defop("map_blocks_kwarg", 2, _g_map_blocks_kwarg, _map_blocks_kwarg_np, _map_blocks_kwarg_da, "blockwise map_blocks", w=1.0, inexact=lambda p, ins, out: 1 if out.dtype.kind in "fc" else 0)
+
+
+def _g_map_blocks_chunks(g, ins):
+    (a,) = ins
+    need(a.kind in "fi" and a.ndim >= 1 and a.da is not None)
+    ch = a.da.chunks
+    need(all(not (isinstance(c, float) and c != c) for dim in ch for c in dim))
+    return {"fn": g.rng.choice(["k_add_one", "k_double"]), "chunks": [[int(c) for c in dim] for dim in ch]}
+
+
+def _map_blocks_chunks_da(p, a):
+    if [[int(c) for c in dim] for dim in a.chunks] != p["chunks"]:
+        raise Skip("input grid differs from the recorded one")
+    # explicit chunks= : the block grid of the input is recorded in the node
+    return da().map_blocks(K.KERNELS[p["fn"]], a, chunks=tuple(tuple(c) for c in p["chunks"]), dtype=a.dtype)
+
+
+defop("map_blocks_chunks", 1, _g_map_blocks_chunks, lambda p, a: K.KERNELS[p["fn"]](a), _map_blocks_chunks_da, "blockwise map_blocks", w=1.0)
 
 
 def _g_map_blocks2(g, ins):
